@@ -725,6 +725,32 @@ func (w *w1World) checkClientLog(cl *w1SimClient) {
 						if !known {
 							racing = true
 						}
+						// the orphaned per-channel writer of the recorded race outlives later
+						// subscriptions of the channel: a publish that overlapped ANY earlier
+						// unsubscribe of this channel on this connection may sit in it and be
+						// flushed by its timer after a later unsubscribe (thorough seed 1 run 15431)
+						if !racing {
+							for _, pr := range w.pubs {
+								if pr.Ch != f.Ch || pr.Data != f.Pub.Data {
+									continue
+								}
+								pend := pr.RetSeq
+								if pend == 0 {
+									pend = 1 << 62
+								}
+								for _, c := range cl.cmds {
+									if c.Kind == "unsubscribe" && c.Ch == f.Ch && c.Seq < pend && (c.RetSeq == 0 || c.RetSeq > pr.Seq) {
+										racing = true
+									}
+								}
+								for _, op := range w.nodeOps {
+									mine := (strings.HasPrefix(op.Kind, "n") && op.User == cl.spec.User) || (strings.HasPrefix(op.Kind, "c") && op.C == cl.idx)
+									if mine && (op.Kind == "nunsub" || op.Kind == "cunsub") && (op.Ch == f.Ch || op.Ch == "") && op.Seq < pend && (op.RetSeq == 0 || op.RetSeq > pr.Seq) {
+										racing = true
+									}
+								}
+							}
+						}
 					}
 					if racing {
 						sig += " [per-channel batching]"
@@ -1035,7 +1061,10 @@ func (w *w1World) checkCommands(cl *w1SimClient) {
 					s.Violate("C09", "preauth-handler-invoked", "handler ran for unauthenticated command", "client %d: handler %s ran for a %s sent before connect", cl.idx, cb.Kind, c.Kind)
 				}
 			}
-			otherCloser := false // a server-side disconnect of this connection competes for the close code
+			// a server-side disconnect of this connection, a failing transport or (emulation
+			// delivery) later commands handled before the asynchronous bad-request close runs
+			// compete for the close code
+			otherCloser := cl.tr.failWrites || cl.spec.Emulation
 			for _, op := range w.nodeOps {
 				if (op.Kind == "ndisc" && op.User == cl.spec.User) || (op.Kind == "cdisc" && op.C == cl.idx) {
 					otherCloser = true
